@@ -5,6 +5,7 @@ package pilosa_test
 // twin-field comparison (C28).
 
 import (
+	"context"
 	"fmt"
 	"sort"
 	"strings"
@@ -140,8 +141,34 @@ func dbExtra(d *db, op simrt.Op) bool {
 		}
 		if vc.Val != wv || vc.Count != wc {
 			d.fail("valcount-"+op.K, "%s on node %d = {%d,%d} want {%d,%d}", q, d.node(I[0]), vc.Val, vc.Count, wv, wc)
+			return true
 		}
 		d.c.Probe("valcount-checked")
+		// the field's Go API (all shards are local on a single node; no filter)
+		if len(d.cl.nodes) == 1 && fe == nil {
+			gf, err := d.cl.nodes[0].api.Field(context.Background(), ix.name, f.name)
+			if err != nil || gf == nil {
+				return true
+			}
+			var gv, gc int64
+			switch op.K {
+			case "sum":
+				gv, gc, err = gf.Sum(nil, f.name)
+			case "min":
+				gv, gc, err = gf.Min(nil, f.name)
+			case "max":
+				gv, gc, err = gf.Max(nil, f.name)
+			}
+			if err != nil {
+				d.fail("query-error", "Field.%s(%s): %v", name, f.name, err)
+				return true
+			}
+			if gv != wv || gc != wc {
+				d.fail("goapi-"+op.K, "Field.%s(nil, %q) = (%d, %d) want (%d, %d)", name, f.name, gv, gc, wv, wc)
+				return true
+			}
+			d.c.Probe("goapi-valcount-checked")
+		}
 	case "rows": // S=[index,field] I=[node,previous,limit,column,from,to]
 		ix, f := d.lookup(S)
 		if f == nil || f.typ == "int" {
